@@ -65,6 +65,9 @@ func comment(c rune) str {
 	if c == '\n' {
 		return str{next: eol, doEmit: false, doAdv: true, typ: token.Invalid}
 	}
+	if c == EOF {
+		return str{next: eof, doEmit: false, doAdv: true, typ: token.Invalid}
+	}
 	return str{next: comment}
 }
 
@@ -103,6 +106,9 @@ func varName(c rune) str {
 
 func stringLit(c rune) str {
 	switch {
+	case c == EOF:
+		return str{err: fmt.Errorf("Lexer: unterminated string literal")}
+
 	case c == '"':
 		return str{next: stringLitEnd}
 
@@ -114,7 +120,10 @@ func stringLit(c rune) str {
 	}
 }
 
-func escapeStringLit(_ rune) str {
+func escapeStringLit(c rune) str {
+	if c == EOF {
+		return str{err: fmt.Errorf("Lexer: unterminated string literal")}
+	}
 	return str{next: stringLit}
 }
 
